@@ -193,7 +193,9 @@ func (e *MetaCDC) ReloadTask() {
 		e.collectionNames.data[uKey] = append(e.collectionNames.data[uKey], newCollectionNames...)
 		e.collectionNames.excludeData[uKey] = append(e.collectionNames.excludeData[uKey], taskInfo.ExcludeCollections...)
 		e.collectionNames.excludeData[uKey] = lo.Uniq(e.collectionNames.excludeData[uKey])
-		e.collectionNames.extraInfos[uKey] = taskInfo.ExtraInfo
+		e.collectionNames.extraInfos[uKey] = model.ExtraInfo{
+			EnableUserRole: e.collectionNames.extraInfos[uKey].EnableUserRole || taskInfo.ExtraInfo.EnableUserRole,
+		}
 		e.cdcTasks.Lock()
 		e.cdcTasks.data[taskInfo.TaskID] = taskInfo
 		e.cdcTasks.Unlock()
@@ -405,6 +407,21 @@ func (e *MetaCDC) checkDuplicateCollection(uKey string,
 	return excludeCollectionNames, nil
 }
 
+// refreshExtraInfoWithoutLock recomputes the extra info of the target from the existing tasks,
+// the caller should hold the collectionNames lock
+func (e *MetaCDC) refreshExtraInfoWithoutLock(uKey string) {
+	enableUserRole := false
+	e.cdcTasks.RLock()
+	for _, taskInfo := range e.cdcTasks.data {
+		if getTaskUniqueIDFromInfo(taskInfo) == uKey && taskInfo.ExtraInfo.EnableUserRole {
+			enableUserRole = true
+			break
+		}
+	}
+	e.cdcTasks.RUnlock()
+	e.collectionNames.extraInfos[uKey] = model.ExtraInfo{EnableUserRole: enableUserRole}
+}
+
 func (e *MetaCDC) Create(req *request.CreateRequest) (resp *request.CreateResponse, err error) {
 	defer func() {
 		log.Info("create request done")
@@ -445,6 +462,7 @@ func (e *MetaCDC) Create(req *request.CreateRequest) (resp *request.CreateRespon
 		defer e.collectionNames.Unlock()
 		e.collectionNames.excludeData[uKey] = lo.Without(e.collectionNames.excludeData[uKey], excludeCollectionNames...)
 		e.collectionNames.data[uKey] = lo.Without(e.collectionNames.data[uKey], newCollectionNames...)
+		e.refreshExtraInfoWithoutLock(uKey)
 	}
 
 	defer func() {
@@ -1415,14 +1433,15 @@ func (e *MetaCDC) delete(taskID string) error {
 	}
 	uKey := getTaskUniqueIDFromInfo(info)
 	collectionNames := GetCollectionNamesFromTaskInfo(info)
-	e.collectionNames.Lock()
-	e.collectionNames.excludeData[uKey] = lo.Without(e.collectionNames.excludeData[uKey], info.ExcludeCollections...)
-	e.collectionNames.data[uKey] = lo.Without(e.collectionNames.data[uKey], collectionNames...)
-	e.collectionNames.Unlock()
-
 	e.cdcTasks.Lock()
 	delete(e.cdcTasks.data, taskID)
 	e.cdcTasks.Unlock()
+
+	e.collectionNames.Lock()
+	e.collectionNames.excludeData[uKey] = lo.Without(e.collectionNames.excludeData[uKey], info.ExcludeCollections...)
+	e.collectionNames.data[uKey] = lo.Without(e.collectionNames.data[uKey], collectionNames...)
+	e.refreshExtraInfoWithoutLock(uKey)
+	e.collectionNames.Unlock()
 
 	e.replicateEntityMap.Lock()
 	if replicateEntity, ok := e.replicateEntityMap.data[uKey]; ok {
